@@ -311,7 +311,12 @@ func (c *Context) HandleEnvelop(envelop vivid.Envelop) {
 	// - 系统消息在 killing 阶段仍需要处理（例如子 Actor 的 OnKilled 事件），否则终止流程无法闭环
 	currentState := atomic.LoadInt32(&c.state)
 	killingOrKilled := (currentState == killed) || (!envelop.System() && currentState != running) // 是否处于停止中或死亡状态
-	if killingOrKilled && !c.zombie {                                                             // 是否处于僵尸状态
+	if _, isKill := envelop.Message().(*vivid.OnKill); isKill && currentState == killing {
+		// 停止/重启流程中收到的 OnKill（包括作为用户消息投递的毒杀）必须交给 onKill 处理，
+		// 否则重启窗口内到达的终止请求会被当作死信丢弃，Actor 重启后继续存活，等待它终止的父 Actor 永远无法结束
+		killingOrKilled = false
+	}
+	if killingOrKilled && !c.zombie { // 是否处于僵尸状态
 		if c.parent == nil {
 			// 根 Actor 已停止：死信无处可发，直接丢弃；否则死信会被再次包装并投递给已停止的根 Actor，无限循环
 			return
@@ -548,9 +553,14 @@ func (c *Context) onKill(message *vivid.OnKill, behavior vivid.Behavior) {
 	if !c.zombie && !atomic.CompareAndSwapInt32(&c.state, running, killing) {
 		// 已处于停止流程中。若此前是优雅停止（子 Actor 收到的是毒杀消息，挂起中的子 Actor 无法处理它），
 		// 而现在收到的是立即停止，则把立即停止传递给仍存活的子 Actor，否则该 Actor 会永远等待被挂起的子 Actor
-		if !message.Poison && atomic.LoadInt32(&c.state) == killing {
-			for _, child := range c.Children() {
-				c.Kill(child, false, message.Reason)
+		if atomic.LoadInt32(&c.state) == killing {
+			// 终止请求优先于进行中的重启：取消重启，当前的停止流程将以正常终止结束（通知父 Actor 与监听者），
+			// 否则该 Actor 会在重启后继续存活，或在重启失败后成为不发送终止通知的僵尸
+			c.restarting = nil
+			if !message.Poison {
+				for _, child := range c.Children() {
+					c.Kill(child, false, message.Reason)
+				}
 			}
 		}
 		return
